@@ -175,9 +175,11 @@ func extractDefineMethod(content string) []MethodDefinition {
 		})
 	}
 
+	// the argument spec is everything up to the parenthesis that closes the
+	// call: MRB_ARGS_REQ(2)|MRB_ARGS_REST() must not stop at the first `)`
 	mrbDefineIdPattern :=
 		regexp.MustCompile(
-			`mrb_define_(class_)?method_id\s*\(\s*\w+\s*,\s*\w+\s*,\s*MRB_SYM(_Q)?\((\w+)\)\s*,\s*(\w+)\s*,\s*([^)]+\))`,
+			`mrb_define_(class_)?method_id\s*\(\s*\w+\s*,\s*\w+\s*,\s*MRB_SYM(_Q)?\((\w+)\)\s*,\s*(\w+)\s*,\s*((?:[^()]|\([^()]*\))+)\)`,
 		)
 
 	mrbIdMatches := mrbDefineIdPattern.FindAllStringSubmatch(content, -1)
@@ -202,7 +204,7 @@ func extractDefineMethod(content string) []MethodDefinition {
 
 	mrbDefinePattern :=
 		regexp.MustCompile(
-			`mrb_define_(class_)?method\s*\(\s*\w+\s*,\s*\w+\s*,\s*"([^"]+)"\s*,\s*(\w+)\s*,\s*([^)]+\))`,
+			`mrb_define_(class_)?method\s*\(\s*\w+\s*,\s*\w+\s*,\s*"([^"]+)"\s*,\s*(\w+)\s*,\s*((?:[^()]|\([^()]*\))+)\)`,
 		)
 
 	mrbMatches := mrbDefinePattern.FindAllStringSubmatch(content, -1)
